@@ -37,16 +37,17 @@ def act_key(a):
     return (a['job'], a['sub'], a['loc'], a['svc'], a['tws'], a['twe'])
 
 
-def lcs(xs, ys):
+def lcs(xs, ys, weight=lambda x: 1):
+    """heaviest common subsequence (pinned jobs weigh more: an operator never moves them, so they are the fixed points)"""
     n, m = len(xs), len(ys)
     L = [[0] * (m + 1) for _ in range(n + 1)]
     for i in range(n - 1, -1, -1):
         for j in range(m - 1, -1, -1):
-            L[i][j] = L[i + 1][j + 1] + 1 if xs[i] == ys[j] else max(L[i + 1][j], L[i][j + 1])
+            L[i][j] = max(L[i + 1][j], L[i][j + 1], (L[i + 1][j + 1] + weight(xs[i])) if xs[i] == ys[j] else 0)
     i = j = 0
     pi, pj = [], []
     while i < n and j < m:
-        if xs[i] == ys[j]:
+        if xs[i] == ys[j] and L[i][j] == L[i + 1][j + 1] + weight(xs[i]):
             pi.append(i)
             pj.append(j)
             i += 1
@@ -63,16 +64,23 @@ def g_step(idx, a):
     return '(%s, %s)' % (nat(idx), O.g_ract(act))
 
 
-def explain(c, before, after, dep_first):
-    """word of primitives (Gallina) turning `before` into `after`, or None"""
+VARIANTS = [(False, True), (False, False), (True, True), (True, False)]
+
+
+def explain(c, before, after, dep_first, drop_early=True):
+    """word of primitives (Gallina) turning `before` into `after`.
+       drop_early: the emptied tours are given back to the registry before the insertions (ruin + restore, then recreate)
+       or at the end (operators that only call restore / nothing after their insertions);
+       dep_first: a changed start departure is applied before or after the insertions."""
     ba = {r['v']: r for r in before['routes']}
     aa = {r['v']: r for r in after['routes']}
     removes, inserts, deps = [], [], []
     moved_in = {}
+    locked = set(before['locked'])
     for v, rb in ba.items():
         B = [a for a in rb['acts'] if a['job'] >= 0]
         A = [a for a in aa[v]['acts'] if a['job'] >= 0] if v in aa else []
-        pi, pj = lcs([act_key(a) for a in B], [act_key(a) for a in A])
+        pi, pj = lcs([act_key(a) for a in B], [act_key(a) for a in A], lambda k: 1000 if k[0] in locked else 1)
         unstable = set(a['job'] for k, a in enumerate(B) if k not in pi) | set(a['job'] for k, a in enumerate(A) if k not in pj)
         gone = [j for j in O.route_jobs(rb) if j in unstable]
         if v not in aa and B and len(gone) == len(O.route_jobs(rb)):
@@ -89,7 +97,8 @@ def explain(c, before, after, dep_first):
         jobs_here = O.route_jobs(ra)
         newjobs = [j for j in jobs_here if unstable is None or j in unstable]
         cur = [k for k, a in enumerate(A) if a['job'] < 0 or a['job'] not in newjobs]      # final positions present
-        start_dep_before = ba[v]['acts'][0]['dep'] if v in ba else c['vehicles'][v]['shift_start']
+        emptied = v in ba and all(j in moved_in[v] for j in O.route_jobs(ba[v]))
+        start_dep_before = ba[v]['acts'][0]['dep'] if v in ba and not (drop_early and emptied) else c['vehicles'][v]['shift_start']
         if A[0]['dep'] != start_dep_before:
             deps.append('PDeparture %s %s' % (z(v), z(tz(A[0]['dep']))))
         for j in newjobs:
@@ -100,7 +109,8 @@ def explain(c, before, after, dep_first):
                     steps.append(g_step(idx, a))
                     cur.append(k)
             inserts.append('PInsert %s %s %s' % (z(v), z(j), lst(steps)))
-    word = removes + ['PDropEmpty'] + (deps + inserts if dep_first else inserts + deps)
+    body = deps + inserts if dep_first else inserts + deps
+    word = removes + (['PDropEmpty'] + body if drop_early else body + ['PDropEmpty'])
     if not after['req']:
         word.append('PFinalize')
     return lst(word)
@@ -116,11 +126,16 @@ def model_term(c, impl):
     sts = O.states(impl)
     dumps = lst(sts, O.g_dump)
     words = []
+    # sub-tours of a feasible tour are feasible only under the triangle inequality: replay metric cases only
+    metric = O.is_metric(c)
     for k in range(1, len(sts)):
-        if consistent_py(c, sts[k - 1]) and consistent_py(c, sts[k]):
-            b = O.g_dump(sts[k - 1])
-            words.append('[run_word P %s %s; run_word P %s %s]' % (b, explain(c, sts[k - 1], sts[k], False),
-                                                                  b, explain(c, sts[k - 1], sts[k], True)))
+        if metric and consistent_py(c, sts[k - 1]) and consistent_py(c, sts[k]):
+            ws = []
+            for de, df in VARIANTS:
+                w = explain(c, sts[k - 1], sts[k], df, de)
+                if w not in ws:
+                    ws.append(w)
+            words.append('(let b := %s in %s)' % (O.g_dump(sts[k - 1]), lst(['run_word P b %s' % w for w in ws])))
         else:
             words.append('[]')
     return 'let P := %s in (run_inv P %s, %s)' % (O.g_pworld(c), dumps, lst(words))
@@ -163,7 +178,7 @@ def compare(c, impl, model):
         got = [canon_model_state(x[1][0]) if x[0] == 1 else None for x in w]
         if want not in got:
             first = got[0]
-            what = ('the guard of primitive #%s of the explanation fails' % (w[0][2],) if first is None
+            what = ('guards fail at primitives #%s of the explanation variants' % ([x[2] for x in w],) if all(g is None for g in got)
                     else 'the replayed state differs: model %s impl %s' % (first, want))
             return 'step %d (%s): the dumped transition is not reproduced by the model primitives: %s' % (k, c['history'][k]['op'], what)
     return None
